@@ -664,9 +664,18 @@ class Spec:
 
     def value(self, env, tabs):
         b, tys = env.b, self.tys
-        ghosts = [i.value(env, tabs, tys) for i in self.type_instrs if isinstance(i, GhostsInstr)]
-        wheres = [i.value(env, tabs, tys) for i in self.type_instrs if isinstance(i, WhereInstr)]
-        cps = [i.value(env, tabs, tys) for i in self.type_instrs if isinstance(i, ChildParents)]
+        tis = []
+        for i in self.type_instrs:
+            if hasattr(i, 'inner'):
+                c, _ = env.pick(i.ch)
+                i = i.inner(c)
+                if i is None:
+                    continue
+            tis.append(i)
+        self._tis = tis
+        ghosts = [i.value(env, tabs, tys) for i in tis if isinstance(i, GhostsInstr)]
+        wheres = [i.value(env, tabs, tys) for i in tis if isinstance(i, WhereInstr)]
+        cps = [i.value(env, tabs, tys) for i in tis if isinstance(i, ChildParents)]
         dta = b.mk('attr::DataTypeAttrs', attrs=VecV([t.value(env, tabs, tys) for t in self.traits]), ghosts_attrs=VecV(ghosts), where_attrs=VecV(wheres),
                    child_parents_attrs=VecV(cps), error_instrs=VecV([]))
         gp = b.e.enums['syn::GenericParam']
@@ -686,7 +695,14 @@ class Spec:
         return b.enum('ast::DataType', 'Enum', Ref(Cell(en)))
 
     def text(self, ev):
-        head = ' '.join([t.text(ev) for t in self.traits] + [i.text(ev) for i in self.type_instrs])
+        tis = []
+        for i in self.type_instrs:
+            if hasattr(i, 'inner'):
+                i = i.inner(ev(i.ch))
+                if i is None:
+                    continue
+            tis.append(i)
+        head = ' '.join([t.text(ev) for t in self.traits] + [i.text(ev) for i in tis])
         gen = ('<%s>' % ', '.join(p.decl for p in self.generics)) if self.generics else ''
         if self.kind == 'struct':
             if self.shape == 'named':
